@@ -117,6 +117,10 @@ impl<T: PayloadEncode> WireEncode for ScionPacket<T> {
     fn wire_valid(&self) -> Result<(), InvalidStructureError> {
         self.header.wire_valid()?;
         self.payload.wire_valid()?;
+        // The payload length field of the common header is 16 bits wide.
+        if self.payload.required_size(self.header.required_size()) > u16::MAX as usize {
+            return Err("payload size exceeds maximum encodeable value of 65535 bytes".into());
+        }
         Ok(())
     }
 
